@@ -181,6 +181,19 @@ def dump(repo: str) -> dict:
         "mixerSensorSize": int(mixer_sensors.MIXER_SENSOR_SIZE),
         "regdataVersion": str(regulator_data.REGDATA_VERSION),
     }
+    # C15: frame type codes for which `Request.create(code)` yields a Request (the handler class the
+    # code computes exists and derives from frames.Request) -- by reflection, as the interpreter sees it
+    import importlib
+
+    def _creatable(code):
+        mod_name, cls_name = frames.get_frame_handler(code).rsplit(".", 1)
+        try:
+            cls = getattr(importlib.import_module("pyplumio." + mod_name), cls_name)
+        except Exception:  # noqa: BLE001
+            return False
+        return isinstance(cls, type) and issubclass(cls, frames.Request)
+
+    out["request_kinds"] = [int(m.value) for m in const.FrameType if _creatable(int(m.value))]
     return out
 
 
@@ -268,6 +281,11 @@ def emit_lean(d: dict) -> dict[str, str]:
     body += "end PlumVerif.Gen\n"
     files["Sensors.lean"] = body
     files["Scaling.lean"] = emit_scaling(d, hdr)
+    body = hdr + "namespace PlumVerif.Gen\n\n"
+    body += "/-- frame type codes for which `Request.create` yields a request frame -/\n"
+    body += "def requestKinds : List Nat := " + lean_list([str(x) for x in d["request_kinds"]], 12) + "\n\n"
+    body += "end PlumVerif.Gen\n"
+    files["Requests.lean"] = body
     return files
 
 
